@@ -3,14 +3,18 @@
 package corerad
 
 import (
+	"context"
 	"fmt"
 	"io"
 	"log"
 	"net"
 	"net/http"
 	"os"
+	"strings"
+	"sync"
 	"syscall"
 	"testing"
+	"testing/synctest"
 	"time"
 
 	"github.com/mdlayher/corerad/internal/config"
@@ -139,11 +143,100 @@ func c20HTTPCheck(c c20HTTPCase) (out [][2]string) {
 	return out
 }
 
+// c20Sentinel is a second task: ready at once, runs until cancelled.
+type c20Sentinel struct {
+	mu        sync.Mutex
+	cancelled bool
+	returned  bool
+}
+
+func (s *c20Sentinel) Run(ctx context.Context) error {
+	<-ctx.Done()
+	s.mu.Lock()
+	s.cancelled, s.returned = true, true
+	s.mu.Unlock()
+	return nil
+}
+func (s *c20Sentinel) Ready() <-chan struct{} { c := make(chan struct{}); close(c); return c }
+func (s *c20Sentinel) String() string         { return "verif sentinel task" }
+
+// c20HTTPNeverListens: the debug address cannot be bound (another process holds it) for
+// as long as the task keeps trying (40 attempts, 3 s apart; under a virtual clock). That is
+// a fatal error of the HTTP task: every other task is cancelled and Serve returns it.
+func c20HTTPNeverListens(t *testing.T) (out [][2]string) {
+	bad := func(sig, format string, a ...any) {
+		out = append(out, [2]string{sig, fmt.Sprintf(format, a...)})
+	}
+	held, err := net.Listen("tcp", "127.0.0.1:0")
+	if err != nil {
+		return [][2]string{{"MACHINERY:no-loopback", err.Error()}}
+	}
+	defer held.Close()
+	addr := held.Addr().String()
+	// Serve legitimately leaves goroutines behind when it returns an error before every
+	// task was ready (the readiness announcer, the signal receiver: the process exits
+	// then); the bubble reports them when it ends, which is not a finding.
+	defer func() {
+		if pv := recover(); pv != nil && !strings.Contains(fmt.Sprint(pv), "blocked goroutines remain") {
+			panic(pv)
+		}
+	}()
+	synctest.Test(t, func(t *testing.T) {
+		ll := log.New(io.Discard, "", 0)
+		st := system.TestState{Forwarding: true}
+		cfg := config.Config{Debug: config.Debug{Address: addr}}
+		s := NewServer(NewContext(ll, nil, st))
+		s.w = nil
+		tasks := s.BuildTasks(cfg, crhttp.NewHandler(ll, st, cfg, nil))
+		if len(tasks) != 1 {
+			bad("C20:http:tasks", "BuildTasks made %d tasks, want 1", len(tasks))
+			return
+		}
+		sen := &c20Sentinel{}
+		sigC := make(chan os.Signal, 1)
+		var (
+			mu     sync.Mutex
+			ret    bool
+			retErr error
+		)
+		go func() {
+			err := s.Serve(sigC, &sdnotify.Notifier{}, append(tasks, sen))
+			mu.Lock()
+			ret, retErr = true, err
+			mu.Unlock()
+		}()
+		time.Sleep(10 * time.Minute) // virtual: far beyond 40 attempts x 3 s
+		synctest.Wait()
+		mu.Lock()
+		r, e := ret, retErr
+		mu.Unlock()
+		sen.mu.Lock()
+		cancelled := sen.cancelled
+		sen.mu.Unlock()
+		switch {
+		case !r:
+			bad("C20:http:listen-failure-not-fatal", "the debug address %s could not be bound for 10 minutes: Serve is still running (other task cancelled: %t) - the HTTP task's fatal error cancelled nothing or was never delivered", addr, cancelled)
+			sigC <- syscall.SIGTERM // let everything end
+			time.Sleep(time.Minute)
+			synctest.Wait()
+		case e == nil:
+			bad("C20:http:listen-failure-not-reported", "the debug address could never be bound but Serve returned nil")
+		case !cancelled:
+			bad("C20:http:listen-failure-not-fatal", "Serve returned %v while the other task was never cancelled", e)
+		}
+	})
+	return out
+}
+
 func TestVerifC20HTTP(t *testing.T) {
 	r := ev.Begin("C20", "http")
 	defer r.End(t)
-	r.Rule = "the real debug HTTP server task made by BuildTasks, run by the real Serve on a loopback socket in real time: {prometheus, pprof} x {SIGTERM, SIGHUP} x {no request in progress, a /metrics request whose handler does not finish by itself, a connection that has sent half a request} (20 cases): exactly one task, reports ready, answers the API, Serve returns nil on the signal, the address is released; non-trivial = every case"
+	r.Rule = "the real debug HTTP server task made by BuildTasks, run by the real Serve on a loopback socket in real time: {prometheus, pprof} x {SIGTERM, SIGHUP} x {no request in progress, a /metrics request whose handler does not finish by itself, a connection that has sent half a request} (20 cases) + the debug address held by another socket for all 40 listen attempts (virtual clock): Serve returns that error and the other task was cancelled: exactly one task, reports ready, answers the API, Serve returns nil on the signal, the address is released; non-trivial = every case"
 	r.Assumptions = []string{"loopback TCP is available; liveness deadlines of 30 s of real time (a miss means a hang, not a slow machine)"}
+	r.Case("debug address never available", true)
+	for _, v := range c20HTTPNeverListens(t) {
+		r.Violation(v[0], v[1], nil)
+	}
 	for _, p := range []bool{false, true} {
 		for _, q := range []bool{false, true} {
 			for _, sig := range []string{"TERM", "HUP"} {
